@@ -266,10 +266,10 @@ def _known(fi, loop, vocab, R):
                 vocab = set(vocab) | {t}
                 continue
             if norm(n.ast) not in vocab:
-                raise AnalysisError("C03.R3: unrecognised predicate `%s` in %s" % (norm(n.ast), fi.short))
+                R.note("%s: predicate `%s` is not part of the case vocabulary: both outcomes are explored" % (fi.short, norm(n.ast)))
 
 
-@rule("C03.R3", "C03", "CASE", "propagation guards equal what re-derivation from scratch requires", min_instances=16)
+@rule("C03.R3", "C03", "CASE", "propagation guards equal what re-derivation from scratch requires", min_instances=16, also=("C10",))
 def r3(ctx, R):
     """For one sub space S and the edited member b named n: S lacks n -> create derived; S's n
     is defined -> nothing; S's n is derived and b is its first definer -> update from b; S's n
@@ -520,3 +520,41 @@ def r4(ctx, R):
     ws = {t.attr: norm(st.value) for st, t in q.attr_writes(ci, recv="self")}
     if ws.get("formula") != "bases[0].formula" or ws.get("is_cached") != "bases[0].is_cached" or ws.get("allow_none") != "bases[0].allow_none":
         R.bad(ci, ci.node, "a derived cells does not take all properties of its first base", stmt="on_inherit copies")
+
+
+@rule("C03.R5", "C03", "DOM", "re-binding a reference always goes through the replacement path", min_instances=3, also=("C04", "C10", "C18"))
+def r5(ctx, R):
+    """ReferenceManager.change_ref delegates to ModelImpl.change_ref / SpaceManager.change_ref on every
+    normal path; SpaceManager.change_ref calls `space.on_change_ref(name, value, is_derived=False, ...)` on
+    every normal path.  A shortcut for "the value it is bound to already" skips the step that turns a derived
+    reference into a defined override (and that records the mode given by the caller)."""
+    rc = ctx.func("ReferenceManager.change_ref")
+    dg = [c for c in q.calls(rc, name="change_ref") if "spmgr" in norm(c.func.value) or norm(c.func.value).endswith(".model")]
+    R.inst("ReferenceManager.change_ref: every normal path delegates the re-binding")
+    ex = rc.cfg.exit
+    r_ = rc.cfg.reach([rc.cfg.entry], avoid=set(q.nodes_for(rc, dg)) if dg else set(), labels=("N", "T", "F"))
+    if not dg or ex in r_:
+        R.bad(rc, rc.node, "a path returns without re-binding: assigning the object a *derived* reference is bound to already "
+                           "leaves it derived (the next edit of the base overwrites the override)", stmt="change_ref delegates")
+    sc = ctx.func("SpaceManager.change_ref")
+    oc = [c for c in q.calls(sc, name="on_change_ref") if norm(c.func.value) == "space"]
+    R.inst("SpaceManager.change_ref: space.on_change_ref(name, value, is_derived=False, refmode=refmode, ...) on every normal path")
+    if not oc or not sc.cfg.must_pass(q.nodes_for(sc, oc), sc.cfg.exit, labels=("N", "T", "F")):
+        R.bad(sc, sc.node, "a path re-binds the reference in place: it becomes defined without taking the mode the caller gave, "
+                           "and without discarding what was computed through it", stmt="on_change_ref on every path")
+    else:
+        c = oc[0]
+        if norm(kw(c, "is_derived") or ast.Constant(0)) != "False" or norm(kw(c, "refmode") or ast.Constant(0)) != "refmode" \
+                or [norm(a) for a in c.args[:2]] != ["name", "value"]:
+            R.bad(sc, c, "the edited space's reference is not replaced by a defined one with the given value and mode")
+    nr = ctx.func("SpaceManager.new_ref")
+    R.inst("SpaceManager.new_ref returns the reference created in the edited space (the value registry records it)")
+    rets = q.returns(nr)
+    okn = False
+    for r in rets:
+        v = q.origin(nr, r.value)
+        if isinstance(v, ast.Call) and call_name(v) == "on_create_ref" and norm(v.func.value) == "space":
+            okn = True
+    if len(rets) != 1 or not okn:
+        R.bad(nr, nr.node, "new_ref does not return the reference of the edited space (a local reused in the loop over the sub "
+                           "spaces makes it the last sub's derived reference: the registry records the wrong one)", stmt="return result")
